@@ -63,6 +63,7 @@ Fixpoint tokenize_go (mode : nat) (cur : string) (s : string) (acc : list token)
           match c with
           | "n"%char => tokenize_go 2 (String "010"%char cur) r acc
           | "t"%char => tokenize_go 2 (String "009"%char cur) r acc
+          | "r"%char => tokenize_go 2 (String "013"%char cur) r acc
           | _ => tokenize_go 2 (String c cur) r acc
           end
       end
@@ -112,6 +113,7 @@ Fixpoint escape (s : string) : string :=
       | "\"%char => String "\"%char (String "\"%char (escape r))
       | "010"%char => String "\"%char (String "n"%char (escape r))
       | "009"%char => String "\"%char (String "t"%char (escape r))
+      | "013"%char => String "\"%char (String "r"%char (escape r))
       | _ => String c (escape r)
       end
   end.
